@@ -506,6 +506,32 @@ static void gen_sequence(int maxlen)
 			n--;
 		}
 	}
+	/* voice-lifetime style: external samples are released / reloaded / re-triggered while
+	 * they sound, on modules of every instrument/sample layout */
+	if (style == 9 && n > 6) {
+		int k = vrng_range(3, 12);
+		for (i = 0; i < k && n > 0; i++, n--) {
+			int slot = vrng_chance(75) ? (int)vrng_below(3) : gen_int(4);
+			switch (vrng_below(7)) {
+			case 0:
+			case 1:
+				call("smix_play_sample", slot, vrng_range(24, 96), vrng_range(16, 64), (int)vrng_below(4));
+				break;
+			case 2:
+				call("smix_play_instrument", (int)vrng_below(4), vrng_range(24, 96), vrng_range(16, 64), (int)vrng_below(4));
+				break;
+			case 3:
+				call("smix_release_sample", slot, 0, 0, 0);
+				break;
+			case 4:
+				call("smix_load_sample", slot, 0, 0, 0);
+				break;
+			default:
+				call("play_frame", 0, 0, 0, 0);
+				break;
+			}
+		}
+	}
 	for (i = 0; i < n; i++)
 		random_call();
 }
